@@ -49,7 +49,9 @@ VALUED_SPELLINGS = ("-o", "--out", "--level", "-s", "--speed", "-m", "--mode", "
 def k12_dangling_value(argv):
     """a valued option given without inline value whose next word is missing or looks like an option"""
     for i, w in enumerate(argv):
-        if w in VALUED_SPELLINGS and (i + 1 == len(argv) or argv[i + 1].startswith("-")):
+        # `-o=` (short form, `=`, no value) is treated like a bare `-o`: the value is taken from the next word
+        bare = w[:-1] if (len(w) == 3 and w[0] == "-" and w[1] != "-" and w.endswith("=")) else w
+        if bare in VALUED_SPELLINGS and (bare != w or i + 1 == len(argv) or argv[i + 1].startswith("-")):
             return True
     return False
 
